@@ -3,8 +3,12 @@
 // Case line:   loc <blocks> <body>
 //   <blocks>  l(m(name:expr,...),...)   the locals blocks in file order (a name may occur twice in a block: rejected)
 //   <body>    m(reqs:l(m(uri:expr,headers:expr[,tag:expr][,body:expr]),...),steps:expr)
-//   expr      s<hex> | l(s..,..) | m(key:s..,..)        literal string / list of strings / map of strings
+//   expr      s<hex> | l(s..,..) | m(key:s..,..) | n    literal string / list of strings / map of strings / null
 //             l(i0,s<name>)  local.<name>      l(i1,a,b)  "${a}${b}"      l(i2,a,b)  concat(a, b)     l(i3,a,b)  merge(a, b)
+//             l(i4,a,b)  coalesce(a, b)
+// null is a value: a local set to null exists and hides the definitions above it; an attribute of the body that
+// evaluates to null leaves its field out (headers, tag, body, the scenario's requests) -- uri, a plain string field,
+// refuses it.
 // The description it denotes: requests r0.. (method GET, uri/headers/tag/body = the values of the expressions) and one
 // scenario "s" whose requests are the value of `steps`.
 //
@@ -30,7 +34,7 @@ import (
 func exRef(name string) *s.V  { return s.List(s.Int(0), s.Str(name)) }
 func exOp(op int, a, b *s.V) *s.V { return s.List(s.Int(int64(op)), a, b) }
 
-// 'v' literal, 'r' reference, 'c' interpolation, 'k' concat, 'g' merge, 0 malformed
+// 'v' literal, 'r' reference, 'c' interpolation, 'k' concat, 'g' merge, 'o' coalesce, 0 malformed
 func exKind(e *s.V) byte {
 	if e.K == 'l' && len(e.L) > 0 && e.L[0].K == 'i' {
 		switch {
@@ -42,11 +46,13 @@ func exKind(e *s.V) byte {
 			return 'k'
 		case e.L[0].I == 3 && len(e.L) == 3:
 			return 'g'
+		case e.L[0].I == 4 && len(e.L) == 3:
+			return 'o'
 		}
 		return 0
 	}
 	switch e.K {
-	case 's':
+	case 's', 'n':
 		return 'v'
 	case 'l':
 		if len(e.L) == 0 || isStrList(e) {
@@ -81,12 +87,23 @@ func locEval(blocks []*s.V, idx int, e *s.V) *s.V {
 			return nil
 		}
 		return locEval(blocks, j, d)
-	case 'c', 'k', 'g':
+	case 'c', 'k', 'g', 'o':
 		a, b := locEval(blocks, idx, e.L[1]), locEval(blocks, idx, e.L[2])
 		if a == nil || b == nil {
 			return nil
 		}
 		switch exKind(e) {
+		case 'o':
+			// every argument is evaluated; one type (null has any); the first that is not null; none: an error
+			switch {
+			case a.K == 'n' && b.K == 'n':
+				return nil
+			case a.K == 'n':
+				return b
+			case b.K == 'n' || a.K == b.K:
+				return a
+			}
+			return nil
 		case 'c':
 			if a.K == 's' && b.K == 's' {
 				return s.Str(a.S + b.S)
@@ -96,6 +113,13 @@ func locEval(blocks []*s.V, idx int, e *s.V) *s.V {
 				return s.List(append(append([]*s.V{}, a.L...), b.L...)...)
 			}
 		default:
+			// merge skips null arguments
+			if a.K == 'n' {
+				a = s.Map()
+			}
+			if b.K == 'n' {
+				b = s.Map()
+			}
 			if a.K == 'm' && b.K == 'm' {
 				out := s.Map()
 				for _, kv := range a.M {
@@ -131,6 +155,8 @@ func locExpr(blocks []*s.V, idx int, e *s.V, inline bool) (string, bool) {
 	switch exKind(e) {
 	case 'v':
 		switch e.K {
+		case 'n':
+			return "null", true
 		case 's':
 			return hq(e.S), true
 		case 'l':
@@ -166,7 +192,9 @@ func locExpr(blocks []*s.V, idx int, e *s.V, inline bool) (string, bool) {
 		var b strings.Builder
 		b.WriteByte('"')
 		for _, p := range parts {
-			if exKind(p) == 'v' && p.K == 's' && !strings.HasSuffix(p.S, "$") && !strings.HasSuffix(p.S, "%") {
+			// (an empty literal part is written as ${""}: a template that is ONE interpolation and nothing else is not a
+			// string template, it hands the value through as it is)
+			if exKind(p) == 'v' && p.K == 's' && p.S != "" && !strings.HasSuffix(p.S, "$") && !strings.HasSuffix(p.S, "%") {
 				q := hq(p.S)
 				b.WriteString(q[1 : len(q)-1])
 				continue
@@ -179,14 +207,17 @@ func locExpr(blocks []*s.V, idx int, e *s.V, inline bool) (string, bool) {
 		}
 		b.WriteByte('"')
 		return b.String(), true
-	case 'k', 'g':
+	case 'k', 'g', 'o':
 		a, ok1 := locExpr(blocks, idx, e.L[1], inline)
 		c, ok2 := locExpr(blocks, idx, e.L[2], inline)
 		if !ok1 || !ok2 {
 			return "", false
 		}
-		if exKind(e) == 'k' {
+		switch exKind(e) {
+		case 'k':
 			return "concat(" + a + ", " + c + ")", true
+		case 'o':
+			return "coalesce(" + a + ", " + c + ")", true
 		}
 		return "merge(" + a + ", " + c + ")", true
 	}
@@ -244,8 +275,11 @@ func locDesc(blocks []*s.V, body *s.V) *s.V {
 		for _, k := range locReqKeys {
 			if e := req.Get(k); e != nil {
 				v := locEval(blocks, n, e)
-				if v == nil {
+				if v == nil || (v.K == 'n' && k == "uri") { // uri is a plain string field: null is refused
 					return nil
+				}
+				if v.K == 'n' {
+					continue // the field is left out
 				}
 				r.M = append(r.M, s.KV{k, v})
 			}
@@ -256,7 +290,11 @@ func locDesc(blocks []*s.V, body *s.V) *s.V {
 	if steps == nil {
 		return nil
 	}
-	return s.Map(s.KV{"requests", reqs}, s.KV{"scenarios", s.List(s.Map(s.KV{"name", s.Str("s")}, s.KV{"requests", steps}))})
+	sc := s.Map(s.KV{"name", s.Str("s")})
+	if steps.K != 'n' {
+		sc.M = append(sc.M, s.KV{"requests", steps})
+	}
+	return s.Map(s.KV{"requests", reqs}, s.KV{"scenarios", s.List(sc)})
 }
 
 func wellFormedLoc(blocks, body *s.V) bool {
@@ -268,7 +306,7 @@ func wellFormedLoc(blocks, body *s.V) bool {
 		switch exKind(e) {
 		case 0:
 			return false
-		case 'c', 'k', 'g':
+		case 'c', 'k', 'g', 'o':
 			return okExpr(e.L[1]) && okExpr(e.L[2])
 		}
 		return true
@@ -334,10 +372,11 @@ var locKeys = []string{"Content-Type", "x", "User Agent", "ключ", "a.b", "wi
 var locNames = []string{"common_headers", "auth_headers", "admin_headers", "api", "base", "host", "token", "steps", "warmup", "main_flow", "suffix", "v2"}
 
 type locGen struct {
-	r     *vh.Rand
-	nreq  int
-	types map[string]byte // name -> 's','l','m' (a name keeps its type when it is redefined)
-	n     int
+	r      *vh.Rand
+	nreq   int
+	types  map[string]byte // name -> 's','l','m' (a name keeps its type when it is redefined, also when it is set to null)
+	n      int
+	blocks []*s.V // the blocks completed so far (what the block being written, or the body, sees)
 }
 
 func (g *locGen) lit(t byte) *s.V {
@@ -372,8 +411,24 @@ func (g *locGen) lit(t byte) *s.V {
 	}
 }
 
-// visible: names with a definition above, in order of first definition
-func (g *locGen) expr(t byte, visible []string, depth int) *s.V {
+// the value of e where the generator stands (below the completed blocks)
+func (g *locGen) isNull(e *s.V) bool {
+	v := locEval(g.blocks, len(g.blocks), e)
+	return v != nil && v.K == 'n'
+}
+
+// an expression of type t that is not null here: a null one gets a default through coalesce()
+func (g *locGen) nonNull(t byte, visible []string, depth int) *s.V {
+	e := g.expr(t, visible, depth, false)
+	if g.isNull(e) {
+		return exOp(4, e, g.lit(t))
+	}
+	return e
+}
+
+// visible: names with a definition above, in order of first definition.  mayNull: the place takes a null value
+// (a definition, an argument of coalesce/merge, an attribute of a field that can be left out)
+func (g *locGen) expr(t byte, visible []string, depth int, mayNull bool) *s.V {
 	r := g.r
 	var cands []string
 	for _, n := range visible {
@@ -381,13 +436,35 @@ func (g *locGen) expr(t byte, visible []string, depth int) *s.V {
 			cands = append(cands, n)
 		}
 	}
+	if mayNull && r.Intn(8) == 0 {
+		return s.Null()
+	}
 	c := r.Intn(10)
 	switch {
 	case c < 5 && len(cands) > 0:
-		return exRef(cands[r.Intn(len(cands))])
+		e := exRef(cands[r.Intn(len(cands))])
+		if !mayNull && g.isNull(e) {
+			return exOp(4, e, g.lit(t))
+		}
+		return e
 	case c < 8 && depth > 0:
-		op := map[byte]int{'s': 1, 'l': 2, 'm': 3}[t]
-		return exOp(op, g.expr(t, visible, depth-1), g.expr(t, visible, depth-1))
+		if r.Intn(4) == 0 {
+			// coalesce: the first argument may well be null; the second one too where the place takes null
+			a := g.expr(t, visible, depth-1, true)
+			b := g.expr(t, visible, depth-1, mayNull)
+			if g.isNull(a) && g.isNull(b) {
+				b = g.lit(t) // "no non-null arguments" is an error, not null
+			}
+			return exOp(4, a, b)
+		}
+		switch t {
+		case 's':
+			return exOp(1, g.nonNull(t, visible, depth-1), g.nonNull(t, visible, depth-1))
+		case 'l':
+			return exOp(2, g.nonNull(t, visible, depth-1), g.nonNull(t, visible, depth-1))
+		default:
+			return exOp(3, g.expr(t, visible, depth-1, true), g.expr(t, visible, depth-1, true)) // merge skips null
+		}
 	}
 	return g.lit(t)
 }
@@ -416,15 +493,21 @@ func genLoc(r *vh.Rand) string {
 		blk := s.Map()
 		for j, n := 0, 1+r.Intn(3); j < n; j++ {
 			var name string
+			redef := false
 			if len(visible) > 0 && r.Intn(4) == 0 {
 				name = visible[r.Intn(len(visible))] // redefinition; the expression may use the name's value above
+				redef = true
 			} else {
 				name = g.newName([]byte{'s', 'l', 'm'}[r.Intn(3)])
 			}
 			if blk.Get(name) != nil {
 				continue
 			}
-			blk.M = append(blk.M, s.KV{Key: name, Val: g.expr(g.types[name], visible, 2)})
+			if redef && r.Intn(3) == 0 {
+				blk.M = append(blk.M, s.KV{Key: name, Val: s.Null()}) // a default of a block above switched off
+				continue
+			}
+			blk.M = append(blk.M, s.KV{Key: name, Val: g.expr(g.types[name], visible, 2, true)})
 		}
 		for _, kv := range blk.M {
 			if _, ok := firstBlock[kv.Key]; !ok {
@@ -433,24 +516,25 @@ func genLoc(r *vh.Rand) string {
 			}
 		}
 		blocks.L = append(blocks.L, blk)
+		g.blocks = blocks.L
 	}
 	reqs := s.List()
 	for i := 0; i < g.nreq; i++ {
-		req := s.Map(s.KV{"uri", g.expr('s', visible, 1)}, s.KV{"headers", g.expr('m', visible, 1)})
-		if r.Intn(3) == 0 {
-			req.M = append(req.M, s.KV{"tag", g.expr('s', visible, 1)})
+		req := s.Map(s.KV{"uri", g.nonNull('s', visible, 1)}, s.KV{"headers", g.expr('m', visible, 1, true)})
+		if r.Intn(2) == 0 {
+			req.M = append(req.M, s.KV{"tag", g.expr('s', visible, 1, true)})
 		}
-		if r.Intn(3) == 0 {
-			req.M = append(req.M, s.KV{"body", g.expr('s', visible, 1)})
+		if r.Intn(2) == 0 {
+			req.M = append(req.M, s.KV{"body", g.expr('s', visible, 1, true)})
 		}
 		reqs.L = append(reqs.L, req)
 	}
-	body := s.Map(s.KV{"reqs", reqs}, s.KV{"steps", g.expr('l', visible, 1)})
+	body := s.Map(s.KV{"reqs", reqs}, s.KV{"steps", g.expr('l', visible, 1, true)})
 	if r.Intn(8) == 0 {
 		// broken on purpose
 		bi := r.Intn(nb)
 		blk := blocks.L[bi]
-		switch r.Intn(4) {
+		switch r.Intn(7) {
 		case 0: // a name nobody defines, in the body
 			reqs.L[0].M[0].Val = exOp(1, s.Str("/"), exRef("nowhere"))
 		case 1: // a name of the same block only
@@ -460,6 +544,27 @@ func genLoc(r *vh.Rand) string {
 			name := g.newName('s')
 			blk.M = append(blk.M, s.KV{Key: g.newName('s'), Val: exRef(name)})
 			blocks.L = append(blocks.L, s.Map(s.KV{Key: name, Val: s.Str("late")}))
+		case 3: // null handed to a plain string field
+			name := g.newName('s')
+			blk.M = append(blk.M, s.KV{Key: name, Val: s.Null()})
+			reqs.L[0].M[0].Val = exRef(name)
+		case 4: // null inside a string template
+			name := g.newName('s')
+			blk.M = append(blk.M, s.KV{Key: name, Val: s.Null()})
+			reqs.L[0].M[0].Val = exOp(1, s.Str("/"), exRef(name))
+		case 5: // coalesce without a non-null argument
+			name := g.newName('s')
+			blk.M = append(blk.M, s.KV{Key: name, Val: s.Null()})
+			bad := exOp(4, exRef(name), s.Null())
+			if reqs.L[0].Get("tag") == nil {
+				reqs.L[0].M = append(reqs.L[0].M, s.KV{Key: "tag", Val: bad})
+			} else {
+				for i := range reqs.L[0].M {
+					if reqs.L[0].M[i].Key == "tag" {
+						reqs.L[0].M[i].Val = bad
+					}
+				}
+			}
 		default: // an attribute set twice in one block
 			if len(blk.M) > 0 {
 				blk.M = append(blk.M, s.KV{Key: blk.M[0].Key, Val: blk.M[0].Val})
